@@ -875,8 +875,13 @@ pub fn c09(tier: &str, seed: u64, meta: &str) -> Report {
                 if c2 != sel && !(list[c2] == text && !(l.is_empty() && r.is_empty())) { expect = list[c2].clone(); feed(w, &mut s, &[SEv::Commit(c2)], rep, "C09"); check_file(rep, &mut s, w, "after re-learning the same word"); } else { feed(w, &mut s, &[SEv::Finish], rep, "C09"); }
             }
         }
-        // 3. restart: a new context over the same user-data directory
+        // 3. restart: a new context over the same user-data directory - now and then one that is created with the
+        // candidate list off and gets it switched on by update_engine afterwards (the store is loaded all the same)
+        if rng.chance(1, 3) {
+            feed(w, &mut s, &[SEv::Update(bits & !2, UacEdit::Keep), SEv::Restart, SEv::Update(bits, UacEdit::Keep)], rep, "C09");
+        } else {
         feed(w, &mut s, &[SEv::Restart], rep, "C09");
+        }
         retype(rep, &mut s, w, "the learned candidate is not preselected after a restart (new context over the same user data directory)", &expect);
         // 4. the word followed by a known suffix: the correspondingly joined candidate is preselected when offered
         let bare_l = w.oracle.conv(l);
